@@ -59,7 +59,7 @@ def _strategy():
                         m["dt_ms"] = 0
                         m["ctx"] = "app"
         base["msgs"] = msgs
-        return base
+        return N.limit_tx_time(base)
     return build()
 
 
